@@ -3,7 +3,7 @@ sys.path.insert(0, os.path.dirname(os.path.abspath(__file__)))
 from _util import c
 
 CHECKS = {
-    "C36": c("gov", "TestC36", dict(checks=300, timeout=400), dict(checks=1500, shards=14, timeout=1500),
+    "C36": c("gov", "TestC36", dict(checks=400, timeout=400), dict(checks=1500, shards=14, timeout=1500),
              technique="property-based testing on the chain simulator (real application, real signed transactions) with a full-state differential "
                        "oracle around every DeliverTx: an independent ACL / DAO-owner model predicts the complete state difference",
              design_ref="DESIGN.md §7 C36",
@@ -15,7 +15,7 @@ CHECKS = {
                         "bins, StakeDenom = upokt, gov/upgrade with the stored height and a version <= 0.12.0, ACL reassignments keep the key set); JSON null, partial "
                         "structs and type-valid but out-of-domain values are not generated. The ante handler, the amino JSON codec and the bank keeper are trusted "
                         "only as far as the state diff shows their effects. Multisig senders are not generated."),
-    "C37": c("gov", "TestC37", dict(checks=300, timeout=400), dict(checks=1500, shards=14, timeout=1500),
+    "C37": c("gov", "TestC37", dict(checks=400, timeout=400), dict(checks=1500, shards=14, timeout=1500),
              technique="model-based property testing (map feature -> height, last writer wins) of upgrade-message sequences through real MsgUpgrade transactions on the "
                        "chain simulator and through the gov keeper at main-net-like heights, followed by a restart of the real application over the same database",
              design_ref="DESIGN.md §7 C37",
